@@ -45,6 +45,12 @@ def run(v):
     common.check_coverage(r, ["AddTok", "Run"], "MC_TitleCase")
     v.add_mc(f"MC_TitleCase/{t}", r, "all token strings within bounds with proper-noun / capitalisation "
              "attributes: LengthKept, OnlyCase, FirstCap, Idempotent")
+    # two deviations seeded changes introduced must be refuted by the same invariants
+    for dev, inv in (("dev_allcaps", "Idempotent"), ("dev_latin", "FirstCap")):
+        rd = common.tlc(os.path.join(SPEC, "mc", "MC_TitleCase.tla"), os.path.join(SPEC, "mc", f"MC_TitleCase_{dev}.cfg"), "c18_mc_dev",
+                        workers=2, timeout=600, coverage=False)
+        if rd.violated != inv:
+            raise common.ToolError(f"MC_TitleCase: deviation {dev} is not refuted (vacuous invariant)")
     _, corp = corpus.harvest()
     trace = os.path.join(wd, "trace.ndjson")
     rc, out, err = common.run_hv(["c18", "--out", trace, "--seed", v.seed, "--corpus", corp,
